@@ -84,6 +84,27 @@ class AdaptSys:
         # the seed / key handed to the constructor is part of the documented key schedule: it varies per task and
         # the first run of a task uses the freshly constructed adapter without any re-seeding
         self.seed0 = int(seed0)
+        if kind in ("gym", "dm"):
+            # OTHER_INSTANCE: an adapter of the same kind around *another configuration* of the same environment class is built
+            # and used first in this process; the adapter under test must not share anything with it (module-level caches of
+            # compiled functions, class attributes)
+            others = [c for c in adapter.configs() if c["id"] != cfg["id"] and not c.get("clock") and not c.get("props")]
+            if others:
+                try:
+                    oenv = adapter.build(others[0])
+                    if tuple(oenv.reward_spec.shape) != ():
+                        oenv = wrappers.MultiToSingleWrapper(oenv)
+                    if kind == "gym":
+                        d = wrappers.JumanjiToGymWrapper(oenv, seed=7)
+                        d.reset()
+                        d.step(np.asarray(oenv.action_spec.generate_value()))
+                    else:
+                        d = wrappers.JumanjiToDMEnvWrapper(oenv, key=jax.random.PRNGKey(7))
+                        d.reset()
+                        d.step(np.asarray(oenv.action_spec.generate_value()))
+                    self.other_instance = others[0]["id"]
+                except Exception:  # noqa: BLE001  (the decoy is best effort: it is never judged)
+                    self.other_instance = None
         if kind == "gym":
             self.sut = wrappers.JumanjiToGymWrapper(env, seed=self.seed0)
         elif kind == "dm":
